@@ -33,4 +33,12 @@ theorem hasPlaceholderFunc_generated_eq_model (k : String) (v : Scalar) :
   · have : (v.ty == "string") = false := by simpa using h
     simp [this]
 
+/-- dom.SearchEqual(in)(val) = cmp.Equal(val, in); for a string `in` it is the model's `searchEqualStr` -/
+theorem SearchEqual_generated_eq_model (ph : String) (v : Scalar) :
+    FuncsDom.SearchEqual ⟨"string", ph⟩ v = .ok (Analytics.searchEqualStr ph v) := by
+  obtain ⟨ty, text⟩ := v
+  have e : ((Scalar.mk ty text) == ⟨"string", ph⟩) = (ty == "string" && text == ph) := by
+    rw [Bool.eq_iff_iff]; simp [Scalar.mk.injEq]
+  simp only [FuncsDom.SearchEqual, GoDom.cmpEqual, Analytics.searchEqualStr, Go.Res.pure_eq, e]
+
 end Ytk.FuncsDomMatcher
